@@ -238,6 +238,14 @@ def build(case):
                         par.remove_child(x)
                     l.remove_definition(d)
                     return n
+    if extra == "many-instances":
+        # every cell that is instanced gains ten more instances (in the top cell): reference sets of a dozen members
+        top = n.top_instance.reference
+        for l in n.libraries:
+            for d in list(l.definitions):
+                if d is not top and len(d.references):
+                    for k in range(10):
+                        top.create_child(name="more_%s_%d" % (d.name, k), reference=d)
     if extra == "top-also-child":
         holder = n.libraries[0].create_definition(name="HOLDER")
         holder.add_child(n.top_instance)
@@ -393,7 +401,7 @@ def query_agreement(n, c, m, tag):
 
 
 engine_b.WORKERS[ID] = worker
-EXTRAS = ("plain", "unnamed", "top-also-child", "definition-removed", "edif-policy", "odd-shapes")
+EXTRAS = ("plain", "unnamed", "top-also-child", "definition-removed", "edif-policy", "odd-shapes", "many-instances")
 
 
 def cases(tier):
